@@ -197,6 +197,9 @@ def c13_shards(tier, prop="C13", mon="C13"):
             sh.append(mcx("queue-traffic-r%d-sh%d" % (ring, shared), ring=ring, prop=prop, table=T_Q, cap=12, shared=shared, name_alpha="HK", max_name=2, args_alpha="1", max_args=0,
                           suffix_mask=5, lines=0 if full else 1, refuse_read=1, refuse_write=1, codes_W="HOLD,OK", codes_U="OK", ecodes_R="OK,DATA_OK,DATA_NEXT,HEXIT_OK,HEXIT_ERR", ecodes_T="OK",
                           max_inv=1, tok=1, ev=("+a:R,+b:R,+d:R" if ring < 3 else "+a:R,+d:R"), act="trigger,hold,queries", trig_budget=0 if full else ring + 2, mon=mon))
+    if not quick:
+        sh.append(mcx("queue-traffic-r8", ring=8, prop=prop, table=T_Q, cap=12, shared=0, name_alpha="HK", max_name=2, args_alpha="1", max_args=0, suffix_mask=5, lines=0,
+                      refuse_read=1, refuse_write=1, codes_W="HOLD,OK", codes_U="OK", ecodes_R="OK", max_inv=1, tok=1, ev="+a:R,+d:R", act="trigger,hold,queries", trig_budget=0, mon=mon))
     return sh
 
 
@@ -218,10 +221,10 @@ def c14_shards(tier, prop="C14", mon="C14"):
     quick = tier == "quick"
     sh = []
     for nm, alpha, sm in (("W", "+W", 4), ("R", "+R", 2), ("U", "+U", 1), ("T", "+T", 8)):
-        for ring in (1, 2):
-            sh.append(mcx("hold-%s-r%d" % (nm, ring), ring=ring, prop=prop, table=T_HOLD, cap=16, shared=ring - 1, name_alpha=alpha, max_name=2, args_alpha="1", max_args=1,
+        for ring in ((1, 2) if quick else (1, 2, 3)):
+            sh.append(mcx("hold-%s-r%d" % (nm, ring), ring=ring, prop=prop, table=T_HOLD, cap=16, shared=(ring - 1) % 3, name_alpha=alpha, max_name=2, args_alpha="1", max_args=1,
                           suffix_mask=sm, lines=2 if quick else 3, crlf=1, refuse_read=1, refuse_write=1, codes_W="HOLD,OK", codes_R="HOLD,DATA_OK", codes_U="HOLD,OK",
-                          codes_T="HOLD,OK", ecodes_R="OK,HEXIT_OK,HEXIT_ERR,DATA_OK,ERROR,LIST,9", ecodes_T="OK,ERROR,HEXIT_OK,LIST", max_inv=1, tok=1, ev="+e:R,+x:R,+y:T", act="trigger,hold", trig_budget=2 if quick else 3,
+                          codes_T="HOLD,OK", ecodes_R="OK,HEXIT_OK,HEXIT_ERR,DATA_OK,ERROR,LIST,9", ecodes_T="OK,ERROR,HEXIT_OK,LIST", max_inv=1, tok=1, ev="+e:R,+x:R,+y:T", act="trigger,hold", trig_budget=2 if quick else 4,
                           h_hold_exit=1, mon=mon))
     return sh
 
@@ -229,7 +232,7 @@ def c14_shards(tier, prop="C14", mon="C14"):
 def p_c14(tier):
     return {"shards": c14_shards(tier), "require": ["lines_hold", "hold_yes", "ev_done"],
             "technique": "explicit-state model checking: every placement of release requests (main context, from inside an event handler, event handler return codes), spurious and repeated requests, events and refusals",
-            "bounds": "four handler kinds entering hold; %d lines queued; trigger budget %d; two queue capacities" % ((2, 2) if tier == "quick" else (3, 3)),
+            "bounds": "four handler kinds entering hold; %d lines queued; trigger budget %d; queue capacities 1,2%s" % ((2, 2, "") if tier == "quick" else (3, 4, ",3 (the last with an odd-sized shared buffer)")),
             "assumptions": ["between an accepted release request and the first byte of the result code cat_is_hold / cat_hold_exit may answer either way"]}
 
 
@@ -240,7 +243,7 @@ PLANS["C14"] = p_c14
 
 def p_c15(tier):
     sh = []
-    for s in c11_shards("quick", prop="C15", mon="C15") + c13_shards("quick", prop="C15", mon="C15") + c14_shards("quick", prop="C15", mon="C15"):
+    for s in c11_shards(tier, prop="C15", mon="C15") + c13_shards("quick", prop="C15", mon="C15") + c14_shards(tier, prop="C15", mon="C15"):
         a = list(s["args"]) + ["--liveness", "1"]
         sh.append({"tag": "live-" + s["tag"], "bin": s["bin"], "args": a})
     for s in c01_shards("quick"):
@@ -408,11 +411,11 @@ PLANS["C05"] = p_c05
 
 
 def p_c06(tier):
-    sh = sw_shards("args", "C06", tier, 36)
+    sh = sw_shards("args", "C06", tier, 36 if tier == "quick" else 54)
     sh += [s for s in c10_shards("quick", mon="C06", prop="C06") if "cmd-R" in s["tag"] or "cmd-T" in s["tag"] or "evt" in s["tag"]]
     return {"shards": sh, "require": ["runs", "overlong", "lines_ok"],
             "technique": "exhaustive positional byte sweep on the real parser (write handlers) and explicit-state exploration of the return-code scenario (read/test handlers of both machines)",
-            "bounds": "caps 6,7,8,16 shared+separate; plain, implicit and variable-backed write commands; argument length 0..3*cap with every byte value (except LF) at every position; "
+            "bounds": "caps 6,7,8,16 (thorough also 24,32) in separate, shared-even and shared-odd layouts; plain, implicit and variable-backed write commands; argument length 0..3*cap with every byte value (except LF) at every position; "
                       "all strings over {a,A,CR,NUL} up to cap+1; read/test handlers: data, length, NUL terminator and true capacity checked at every invocation of the C10 scenario",
             "rule": SWEEP_RULE, "assumptions": []}
 
